@@ -26,6 +26,9 @@ CALLBACKS = {
     "cb_nil": ("lo", "filter", "fn(x: int?) -> bool {\n\tmodify cnt = cnt + 1\n\treturn x == nil\n}"),
     "cb_sz": ("ln", "li", "fn(x: [int...]) -> int {\n\tglog.push(x.len())\n\treturn x.len() + cnt\n}"),
     "cb_nonempty": ("ln", "filter", "fn(x: [int...]) -> bool {\n\treturn x.len() > 0\n}"),
+    # callbacks whose result is an element read of another list: the value, not a view, must reach map/filter
+    "cb_view": ("li", "li", "fn(x: int) -> int {\n\treturn gsrc[0]\n}"),
+    "cb_flag": ("li", "filter", "fn(x: int) -> bool {\n\treturn gflags[0]\n}"),
 }
 
 
@@ -65,6 +68,9 @@ class Interp:
         self.em.code("cnt = 0")
         self.em.code("glog: [int...] = []")
         self.em.code("ineg = 0 - 1")
+        self.em.code("gsrc: [int...] = [10, 20]\ngflags: [bool...] = [true, false]")
+        self.gsrc = [10, 20]
+        self.gflags = [True, False]
 
     # ----------------------------------------------------------- rendering
     def render(self, o, nested=False):
@@ -138,6 +144,10 @@ class Interp:
             return len(x.data) + self.cnt
         if name == "cb_nonempty":
             return len(x.data) > 0
+        if name == "cb_view":
+            return self.gsrc[0]
+        if name == "cb_flag":
+            return self.gflags[0]
         raise ValueError(name)
 
     # ----------------------------------------------------------------- ops
@@ -147,6 +157,12 @@ class Interp:
         k = op["op"]
         em = self.em
         V = self.vars
+        if k == "src_bump":
+            # the source the view-returning callbacks read from changes afterwards
+            em.code("gsrc[0] += 1\ngflags[0] = !gflags[0]")
+            self.gsrc[0] += 1
+            self.gflags[0] = not self.gflags[0]
+            return True
         if k == "new":
             t = op["t"]
             if t == "ln":
@@ -421,12 +437,11 @@ class Interp:
             return True
         if k == "join":
             b = self.vars.get(op.get("b"))
-            if b is None or b.t != a.t or b is a:
+            if b is None or b.t != a.t:
                 return False
             name = self.fresh(a.t, a)
             em.code("%s = %s.join(%s)" % (name, an, op["b"]))
-            a.data.extend(b.data)
-            b.data.clear()       # observed behaviour: join drains its argument
+            a.data.extend(list(b.data))       # a becomes a ++ b (b may be an alias of a); b keeps its contents
             return True
         if k in ("map", "filter"):
             cb = op["cb"]
@@ -646,6 +661,8 @@ def gen_op(rng, it):
         else:
             init = [[kk, rng.choice(STRS)] for kk in rng.sample(IKEYS, rng.range(0, 3))]
         return {"op": "new", "t": t, "init": init}
+    if rng.chance(1, 12):
+        return {"op": "src_bump"}
     a = rng.choice(names)
     o = it.vars[a]
     if o.t in LIST_T:
@@ -690,7 +707,7 @@ def gen_op(rng, it):
         if kind in ("remove", "read", "write", "opassign", "concat", "bind", "unary_read"):
             op["i"] = pick_index(rng, n)
         if kind in ("eq", "join"):
-            cands = [x for x in lists if it.vars[x].t == o.t and (kind == "eq" or it.vars[x] is not o)]
+            cands = [x for x in lists if it.vars[x].t == o.t]
             if not cands:
                 return {"op": "len", "a": a}
             op["b"] = rng.choice(cands)
